@@ -60,7 +60,7 @@ func ruleGxzDataSafety(c *Ctx, r *Report, prefix string) {
 	}
 	seen := map[string]bool{}
 	for _, fn := range c.ModFuncs("cmd/gxz") {
-		for _, b := range fn.Blocks {
+		for _, b := range theCtx.GB(fn) {
 			for _, ins := range b.Instrs {
 				ci, ok := ins.(ssa.CallInstruction)
 				if !ok {
@@ -141,7 +141,7 @@ func ruleGxzDataSafety(c *Ctx, r *Report, prefix string) {
 	for _, f := range []*types.Var{fRSucc, fWSucc} {
 		var writers []string
 		for _, fn := range c.ModFuncs("cmd/gxz") {
-			for _, b := range fn.Blocks {
+			for _, b := range theCtx.GB(fn) {
 				for _, ins := range b.Instrs {
 					if st, ok := storeToField(ins, f); ok {
 						if bv, isB := constBool(st.Val); !isB || !bv || (fn != rSet && fn != wSet) {
@@ -346,7 +346,7 @@ func ruleGxzDataSafety(c *Ctx, r *Report, prefix string) {
 			okDisc, nDisc := true, 0
 			for _, fn := range c.ModFuncs("cmd/gxz") {
 				has := false
-				for _, b := range fn.Blocks {
+				for _, b := range theCtx.GB(fn) {
 					for _, ins := range b.Instrs {
 						if isCallTo(ins, discard) {
 							has = true
@@ -458,7 +458,7 @@ func ruleGxzDataSafety(c *Ctx, r *Report, prefix string) {
 				"OpenFile is reachable although the target exists and force is not set", guardFail...)
 			// w.name = target name (the Rename destination)
 			okName := false
-			for _, b := range newWriter.Blocks {
+			for _, b := range theCtx.GB(newWriter) {
 				for _, ins := range b.Instrs {
 					if st, ok := storeToField(ins, fWname); ok && tnCall != nil && roleExtract(roleIs(tnCall), 0)(st.Val) {
 						okName = true
@@ -472,7 +472,7 @@ func ruleGxzDataSafety(c *Ctx, r *Report, prefix string) {
 	{
 		ok := true
 		n := 0
-		for _, b := range tmpName.Blocks {
+		for _, b := range theCtx.GB(tmpName) {
 			for _, ins := range b.Instrs {
 				ret, isRet := ins.(*ssa.Return)
 				if !isRet {
@@ -622,7 +622,7 @@ func ruleGxzFlags(c *Ctx, r *Report, prefix string) {
 	{
 		var bad []string
 		n := 0
-		for _, b := range process.Blocks {
+		for _, b := range theCtx.GB(process) {
 			for _, ins := range b.Instrs {
 				call, ok := ins.(ssa.CallInstruction)
 				if !ok {
@@ -669,7 +669,7 @@ func ruleGxzFlags(c *Ctx, r *Report, prefix string) {
 		newReader := c.Func("cmd/gxz", "newReader")
 		if fKeep != nil && fOK != nil && fOS != nil && newReader != nil {
 			n, good := 0, 0
-			for _, b := range newReader.Blocks {
+			for _, b := range theCtx.GB(newReader) {
 				for _, ins := range b.Instrs {
 					st, ok := storeToField(ins, fKeep)
 					if !ok {
@@ -732,7 +732,7 @@ func ruleGxzFlags(c *Ctx, r *Report, prefix string) {
 	// permission bits: reader.Perm returns mode & (subset of 0666) or a constant subset of 0666
 	if perm := c.Func("cmd/gxz", "reader.Perm"); perm != nil {
 		ok, n := true, 0
-		for _, b := range perm.Blocks {
+		for _, b := range theCtx.GB(perm) {
 			for _, ins := range b.Instrs {
 				ret, isRet := ins.(*ssa.Return)
 				if !isRet {
@@ -765,7 +765,7 @@ func ruleGxzFlags(c *Ctx, r *Report, prefix string) {
 		newWriter := c.Func("cmd/gxz", "newWriter")
 		okFlow := false
 		if newWriter != nil {
-			for _, b := range newWriter.Blocks {
+			for _, b := range theCtx.GB(newWriter) {
 				for _, ins := range b.Instrs {
 					if stdCalleeName(ins) == "os.OpenFile" {
 						if p, isP := ins.(*ssa.Call).Call.Args[2].(*ssa.Parameter); isP && p.Name() == "perm" {
@@ -774,7 +774,7 @@ func ruleGxzFlags(c *Ctx, r *Report, prefix string) {
 					}
 				}
 			}
-			for _, b := range process.Blocks {
+			for _, b := range theCtx.GB(process) {
 				for _, ins := range b.Instrs {
 					if call, ok := callTo(ins, newWriter); ok {
 						if pc, isC := call.Call.Args[1].(*ssa.Call); !isC || pc.Call.StaticCallee() != perm {
@@ -829,7 +829,7 @@ func optionStores(c *Ctx, cone map[*ssa.Function]bool, optT types.Type) []string
 		if !c.InModule(fn) {
 			continue
 		}
-		for _, b := range fn.Blocks {
+		for _, b := range theCtx.GB(fn) {
 			for _, ins := range b.Instrs {
 				st, ok := ins.(*ssa.Store)
 				if !ok {
